@@ -250,7 +250,7 @@ func runDijkstraShape(c *Ctx) []Obligation {
 					}
 					base := nodeText(c.Fset, sel.X)
 					ord++
-					hasSeg, hasFix := false, false
+					hasSeg, hasFix, fixEarly := false, false, false
 					for _, st2 := range blk.List {
 						if as2, ok := st2.(*ast.AssignStmt); ok && len(as2.Lhs) == 1 {
 							if s2, ok := ast.Unparen(as2.Lhs[0]).(*ast.SelectorExpr); ok && nodeText(c.Fset, s2.X) == base && s2.Sel.Name != distField {
@@ -264,10 +264,18 @@ func runDijkstraShape(c *Ctx) []Obligation {
 								if fn := calleeFunc(info, call); fn != nil && fn.Pkg() != nil && fn.Pkg().Path() == "container/heap" && fn.Name() == "Fix" && len(call.Args) == 2 {
 									if nodeText(c.Fset, call.Args[1]) == base+"."+indexField {
 										hasFix = true
+										if call.Pos() < as.Pos() {
+											fixEarly = true
+										}
 									}
 								}
 							}
 						}
+					}
+					if hasSeg && hasFix && fixEarly {
+						add(fmt.Sprintf("%s#decrease%d", key(mname), ord), as.Pos(), false, "",
+							fmt.Sprintf("heap.Fix is called before %s is lowered at %s: the heap is repaired for the old key, the entry stays where it was, and a point with a larger distance is popped and settled first", nodeText(c.Fset, as.Lhs[0]), c.Position(as.Pos())))
+						continue
 					}
 					add(fmt.Sprintf("%s#decrease%d", key(mname), ord), as.Pos(), hasSeg && hasFix,
 						fmt.Sprintf("%s is lowered together with the predecessor segment and heap.Fix(s, %s.%s)", nodeText(c.Fset, as.Lhs[0]), base, indexField),
